@@ -867,6 +867,13 @@ def canon_fmt(e, names):
         return '%s[%d]' % (canon_fmt(e[1], names), e[2])
     if k == 'downcast':
         return '(%s as %s)' % (canon_fmt(e[1], names), e[2])
+    if CANON_V8 and (k == 'bin' and e[1].replace('WithOverflow', '').replace('Unchecked', '') in ('Add', 'Sub', 'Mul') or
+                     k == 'field' and str(e[2]) == '0' and isinstance(e[1], tuple) and e[1][0] == 'bin' and
+                     e[1][1].endswith('WithOverflow')):
+        # integer arithmetic is written in polynomial normal form: `(q + 1) * k` and `q * k + k` are the same operand
+        from .poly import poly, pstr
+        pe = poly(e, atom=lambda x: canon_fmt(x, names))
+        return 'P[%s]' % pstr(pe)
     if k == 'bin':
         a_, b_ = canon_fmt(e[2], names), canon_fmt(e[3], names)
         op = e[1].replace('WithOverflow', '')
@@ -967,6 +974,7 @@ def obligations_in_context(facts, body, keep=None):
 CANON_V5 = os.environ.get('VERIF_PO_CANON', 'new') not in ('old', 'v2', 'v3', 'v4')
 CANON_V6 = os.environ.get('VERIF_PO_CANON', 'new') not in ('old', 'v2', 'v3', 'v4', 'v5')
 CANON_V7 = os.environ.get('VERIF_PO_CANON', 'new') not in ('old', 'v2', 'v3', 'v4', 'v5', 'v6')
+CANON_V8 = os.environ.get('VERIF_PO_CANON', 'new') not in ('old', 'v2', 'v3', 'v4', 'v5', 'v6', 'v7')
 
 
 class KeyBody(object):
@@ -1286,5 +1294,96 @@ def orphan_match(key, audit, present_paths):
                 rx += re.escape(t)
         m = re.fullmatch(rx, parts[2])
         if m and all(_balanced(v) for v in m.groupdict().values()):
+            return k
+    return None
+
+
+def _split_depth(s, sep):
+    out, depth, cur, i = [], 0, '', 0
+    while i < len(s):
+        ch = s[i]
+        if ch in '([{':
+            depth += 1
+        elif ch in ')]}':
+            depth -= 1
+        if depth == 0 and s.startswith(sep, i):
+            out.append(cur)
+            cur = ''
+            i += len(sep)
+            continue
+        cur += ch
+        i += 1
+    out.append(cur)
+    return out
+
+
+def parse_poly(text):
+    """inverse of the canonical operand syntax: `P[2*a*b + c + -1]` (or a plain atom / integer) -> {monomial tuple: coeff}"""
+    text = text.strip()
+    if text.endswith('.0') and text.startswith('P['):
+        text = text[:-2]
+    if text.startswith('P[') and text.endswith(']'):
+        body = text[2:-1]
+        out = {}
+        if body == '0':
+            return out
+        for term in _split_depth(body, ' + '):
+            fs = _split_depth(term, '*')
+            coef = 1
+            atoms = []
+            for f in fs:
+                if re.fullmatch(r'-?\d+', f):
+                    coef *= int(f)
+                else:
+                    atoms.append(f)
+            m = tuple(sorted(atoms))
+            out[m] = out.get(m, 0) + coef
+        return {m: c for m, c in out.items() if c}
+    if re.fullmatch(r'-?\d+', text):
+        return {(): int(text)} if int(text) else {}
+    return {(text,): 1}
+
+
+def _pmul(a, b):
+    out = {}
+    for m1, c1 in a.items():
+        for m2, c2 in b.items():
+            m = tuple(sorted(m1 + m2))
+            out[m] = out.get(m, 0) + c1 * c2
+    return {m: c for m, c in out.items() if c}
+
+
+def result_poly(key):
+    """polynomial of the value computed by the operation an overflow-add / -mul obligation is about"""
+    parts = key.split('|')
+    if len(parts) < 3:
+        return None
+    kind = parts[1].split(':')[0]
+    if kind not in ('overflow-add', 'overflow-mul'):
+        return None
+    ops = _split_depth(parts[2], ',')
+    if len(ops) != 2:
+        return None
+    a, b = parse_poly(ops[0]), parse_poly(ops[1])
+    if kind == 'overflow-add':
+        out = dict(a)
+        for m, c in b.items():
+            out[m] = out.get(m, 0) + c
+        return {m: c for m, c in out.items() if c}
+    return _pmul(a, b)
+
+
+def implied_same_value(key, audit):
+    """an unsigned addition / multiplication whose mathematical result is the same polynomial (non-negative coefficients) as
+    the result of an audited addition / multiplication of the same function fits the type as well. Returns that key."""
+    mine = result_poly(key)
+    if not mine or any(c < 0 for c in mine.values()):
+        return None
+    fn = key.split('|')[0]
+    for k in audit:
+        if k == key or k.split('|')[0] != fn:
+            continue
+        theirs = result_poly(k)
+        if theirs == mine:
             return k
     return None
